@@ -15,7 +15,7 @@ Inductive sexp : Type :=
 Fixpoint str (s : string) : list Z :=
   match s with
   | EmptyString => []
-  | String a r => Z.of_nat (nat_of_ascii a) :: str r
+  | String a r => Z.of_N (N_of_ascii a) :: str r   (* = Z.of_nat (nat_of_ascii a), built from the 8 bits directly *)
   end.
 
 Definition sym (s : string) : sexp := S (str s).
